@@ -444,6 +444,76 @@ fn gen_p(ctx: &Ctx, seed: u64, run_index: u64) -> PScn {
     PScn { image, inc: Incarnation { argv, entropy: s.next_u64(), plan, debug_build }, rerun_entropy: s.next_u64(), fired_stored: fired, valid_input }
 }
 
+/// Thorough tier: systematic single-fault sweep (DESIGN §3.4) — sweep run `j` takes base scenario
+/// `j / SWEEP_COMBOS` (a valid input with every output requested) and injects exactly one fault:
+/// tracked call `(j % SWEEP_COMBOS) / 7` x kind `(j % SWEEP_COMBOS) % 7`
+/// (EINTR, short 1 byte, short half, three call-specific hard errors, crash).
+pub const SWEEP_CALLS: u64 = 23; // 2 inputs x 4 calls + 5 outputs x 3 calls
+pub const SWEEP_COMBOS: u64 = SWEEP_CALLS * 7;
+
+fn gen_p_sweep(ctx: &Ctx, j: u64) -> PScn {
+    let base = j / SWEEP_COMBOS;
+    let combo = j % SWEEP_COMBOS;
+    let (call, kind) = (combo / 7, combo % 7);
+    let seed = crate::rng::mix(&[ctx.verif_seed, 0x5357_4545_50, base]);
+    let mut w = Rng::for_stream(seed, stream::WORKLOAD);
+    let mut s = Rng::for_stream(seed, stream::SCHEDULE);
+    // a valid building that evaluates: location factors or a complete generated factor file
+    let focus = *w_pick_focus(&mut w);
+    let mut p = gen_profile(&mut w, focus, false);
+    p.f_cogen = false; // cogeneration without declared input is a typed error: keep the base on the success path
+    p.f_ambiguous_aux = false;
+    let b = gen_building(&mut w, &p);
+    let lay = gen_layout(&mut w, b.lines.len());
+    let mut image = DiskImage::default().with_file("in.csv", Blob::Utf8(render(&b, &lay)));
+    let mut argv: Vec<String> = vec!["-c".into(), "in.csv".into()];
+    if w.chance(0.5) {
+        image = image.with_file("factors.csv", Blob::Utf8(gen_factor_file(&mut w, &b.carriers(), false, true)));
+        argv.push("-f".into());
+        argv.push("factors.csv".into());
+    } else {
+        argv.push("-l".into());
+        argv.push(w.pick(&LOCS).to_string());
+    }
+    for (flag, name) in [("--oc", "oc.csv"), ("--of", "of.csv"), ("--json", "out.json"), ("--xml", "out.xml"), ("--txt", "out.txt")] {
+        argv.push(flag.into());
+        argv.push(name.into());
+        if w.chance(0.3) {
+            image = image.with_file(name, Blob::Utf8("STALE ".repeat(4000)));
+        }
+    }
+    let shape = predicted_shape(&argv, &image);
+    let mut plan = Vec::new();
+    if let Some(t) = shape.get(call as usize) {
+        let is_create = (t.req & 0o100) != 0;
+        let hard = |n: usize| -> i32 {
+            match t.call.as_str() {
+                "open" if is_create => [worldp::EACCES, worldp::ENOSPC, worldp::EROFS][n],
+                "open" => [worldp::ENOENT, worldp::EACCES, worldp::EMFILE][n],
+                "read" => [worldp::EIO, worldp::EIO, worldp::EIO][n],
+                _ => [worldp::ENOSPC, worldp::EIO, worldp::EDQUOT][n],
+            }
+        };
+        let k = match kind {
+            0 => Some(PlanKind::Eintr),
+            1 => Some(PlanKind::Short(1)),
+            2 => Some(PlanKind::Short((t.res.max(2) / 2) as u64)),
+            3..=5 => {
+                if t.call == "close" {
+                    None
+                } else {
+                    Some(PlanKind::Err(hard((kind - 3) as usize)))
+                }
+            }
+            _ => Some(PlanKind::Crash),
+        };
+        if let Some(k) = k {
+            plan.push(PlanEntry { idx: call, kind: k });
+        }
+    }
+    PScn { image, inc: Incarnation { argv, entropy: s.next_u64(), plan, debug_build: false }, rerun_entropy: s.next_u64(), fired_stored: Vec::new(), valid_input: true }
+}
+
 // ---------------------------------------------------------------------------------------------
 // Process-world oracle (table of DESIGN §5 C16)
 
@@ -555,6 +625,8 @@ impl Property for C16 {
         let seed = ctx.run_seed(run_index);
         if ctx.sut_release.is_some() && run_index % 8 == 0 {
             Scn::P(gen_p(ctx, seed, run_index))
+        } else if ctx.sut_release.is_some() && ctx.thorough() && run_index % 8 == 4 {
+            Scn::P(gen_p_sweep(ctx, run_index / 8))
         } else {
             Scn::L(gen_l(ctx, seed, run_index))
         }
